@@ -49,7 +49,10 @@ Proof. exact reject_sound_bytes. Qed.
 (* MANDATORY STRUCTURE IS ENFORCED, unbounded.  gen/Specs.v lists, per type, the languages obtained from the independent
    specification by leaving out exactly one mandatory element: a mandatory field, every occurrence of a mandatory
    repetitive field, a whole mandatory sequence, or a mandatory element of one occurrence of a sequence (that occurrence
-   anywhere among any number of complete ones): 139 languages over the 30 types.  For each of them (deletion_open is empty), EVERY text whose tag sequence is a word of the language and whose tokens are good (see
+   anywhere among any number of complete ones; when what is left of the occurrence could be empty, one language per
+   element that is then the first one present): 154 languages over the 30 types, after leaving out the 4 in which the text can
+   still be a word of the specification (gen/Specs.v spec_deletions_ambiguous, each with such a word, checked below).
+   For each of them (deletion_open is empty), EVERY text whose tag sequence is a word of the language and whose tokens are good (see
    Props/C03.v) is rejected by the regenerated layout, and the error is true of the text (what is reported missing is
    not the next field, what is reported malformed is in the text and its parser rejects it).  Proved by the same
    abstract interpreter as the inclusion of C03, in the mode that drops the paths that certainly reject
@@ -68,6 +71,14 @@ Theorem C09_rejection_analysis_is_sound : forall fparse fp U n L R, excludes fp 
   forall f, lsize L + List.length toks + 1 <= f -> exists e, trun fparse f L toks = Reject e.
 Proof. exact excludes_rejects. Qed.
 
+(* the deletion languages left out of spec_deletions each contain a word of the specification (so a text of that shape
+   may be a well-formed message and must not be expected to be rejected) *)
+Theorem C09_left_out_deletions_are_ambiguous :
+  forallb (fun p => forallb (fun d => let '(D, w) := snd d in
+                                      matchb D w && match lookup (fst p) specs with Some alts => existsb (fun R => matchb R w) alts | None => false end)
+                            (snd p)) spec_deletions_ambiguous = true.
+Proof. exact left_out_deletions_are_ambiguous. Qed.
+
 Print Assumptions C09_rejection_names_culprit.
 Print Assumptions C09_mandatory_missing.
 Print Assumptions C09_bad_content_mandatory.
@@ -75,3 +86,4 @@ Print Assumptions C09_bad_content_optional.
 Print Assumptions C09_rejection_names_culprit_bytes.
 Print Assumptions C09_missing_mandatory_element_is_rejected.
 Print Assumptions C09_rejection_analysis_is_sound.
+Print Assumptions C09_left_out_deletions_are_ambiguous.
